@@ -6,6 +6,7 @@ package c18
 import (
 	"fmt"
 	"os"
+	"path/filepath"
 	"sort"
 	"strconv"
 	"strings"
@@ -24,6 +25,19 @@ func TestSurvey(t *testing.T) {
 	ds := 11
 	if v, err := strconv.Atoi(os.Getenv("C18_DS")); err == nil {
 		ds = v
+	}
+	if os.Getenv("C18_M") != "" {
+		me := freshMEnv(21)
+		if me.err != nil {
+			t.Fatal(me.err)
+		}
+		all := faultsOf(me.files, 21, me.blobRoot, me.blob, true)
+		fmt.Println("total metrics faults", len(all))
+		for _, f := range me.files {
+			fmt.Println(f.Rel, f.Kind, len(f.Data), f.NoTrunc)
+		}
+		surveyRun(sample(all, budget, 1), checkMetricsFault)
+		return
 	}
 	e := freshEnv(ds)
 	if e.err != nil {
@@ -53,12 +67,16 @@ func TestSurvey(t *testing.T) {
 		}
 		picked = sample(sel, budget, 1)
 	}
+	surveyRun(picked, checkFault)
+}
+
+func surveyRun(picked []*faultCase, check func(*faultCase, *pt.Obs) error) {
 	hist := map[string]int{}
 	ex := map[string]string{}
 	var mu sync.Mutex
 	for _, fc := range picked {
 		o := &pt.Obs{}
-		err := checkFault(fc, o)
+		err := check(fc, o)
 		key := "ok"
 		if err != nil {
 			msg := err.Error()
@@ -75,6 +93,9 @@ func TestSurvey(t *testing.T) {
 			key = msg
 		}
 		key = fc.Kind + "/" + fc.Region + "/" + fc.Op + " :: " + key
+		if os.Getenv("C18_BYFILE") != "" {
+			key = filepath.Base(fc.Rel) + " " + fmt.Sprint(o) + " :: " + key
+		}
 		mu.Lock()
 		hist[key]++
 		if _, ok := ex[key]; !ok && err != nil {
